@@ -466,6 +466,14 @@ where
         }
     }
 
+    /// Replaces the pending timeout of every bucket.
+    #[cfg(feature = "verif-hooks")]
+    pub fn verif_set_pending_timeout(&mut self, timeout: Duration) {
+        for bucket in self.buckets.iter_mut() {
+            bucket.verif_set_pending_timeout(timeout);
+        }
+    }
+
     /// Removes a node from the routing table. Returns `true` of the node existed.
     pub fn remove(&mut self, key: &Key<TNodeId>) -> bool {
         let index = BucketIndex::new(&self.local_key.distance(key));
